@@ -164,6 +164,13 @@ class Discharger:
                 return "constant index into a folded table of length %d" % len(v)
             if isinstance(v, dict) and k in v:
                 return "constant key of a folded table"
+        # first / last element of a copy of a container known to be non-empty:  list(x)[-1], list(x.items())[0]
+        if k in (0, -1) and isinstance(base, ast.Call) and u(base.func) in ("list", "tuple", "sorted") and len(base.args) == 1:
+            inner = base.args[0]
+            if isinstance(inner, ast.Call) and isinstance(inner.func, ast.Attribute) and inner.func.attr in ("items", "keys", "values") and not inner.args:
+                inner = inner.func.value
+            if ("truthy", u(inner)) in facts:
+                return "first/last element of a copy of %s, which a dominating test shows non-empty" % u(inner)
         # index variable bounded by range(len(base)) / enumerate(base)
         if isinstance(idx, ast.Name):
             if ("range", idx.id, "len(%s)" % bt) in facts:
@@ -236,6 +243,17 @@ class Discharger:
                 return "value is a tuple of arity %d on every path" % n
             if isinstance(val, ast.Call) and u(val.func) == "divmod" and n == 2:
                 return "divmod returns a pair"
+            # an element of a container all of whose stored elements are displays of this arity
+            cont = None
+            if isinstance(val, ast.Subscript) and isinstance(val.value, ast.Name) and not isinstance(val.slice, ast.Slice):
+                cont = val.value.id
+            elif isinstance(val, ast.Call) and isinstance(val.func, ast.Attribute) and val.func.attr in ("pop", "get") \
+                    and isinstance(val.func.value, ast.Name) and len(val.args) == 1:
+                cont = val.func.value.id
+            if cont is not None:
+                ar2 = self.element_arity(info.f, cont)
+                if ar2 == n:
+                    return "every element stored into %s (in every function it is passed through) is a display of arity %d" % (cont, n)
             # m.groups() of a folded pattern
             if isinstance(val, ast.Call) and isinstance(val.func, ast.Attribute) and val.func.attr == "groups":
                 g = self._pattern_groups(info, val.func.value)
@@ -263,6 +281,80 @@ class Discharger:
                         rep = k.value.value
                 if rep == n or (rep is None and len(val.args) == n):
                     return "product of %d factors" % n
+        return None
+
+    def element_arity(self, f, name):
+        """n when every value ever stored as an element of the container `name` of f is a tuple / list display of n items.
+        The container is followed through parameter passing (to callees it is handed to, and up to the callers that
+        supplied it), among module-level functions; anything not understood gives None."""
+        db = self.ctx.db
+        seen, work = set(), [(f, name)]
+        while work and len(seen) < 12:
+            g, v = work.pop()
+            if (g.qual, v) in seen:
+                continue
+            seen.add((g.qual, v))
+            if v in g.params:
+                callers = [c for c in db.funcs.values() if any(g in s_.callees for s_ in self.ctx.cg.sites(c))]
+                for c in callers:
+                    for s_ in self.ctx.cg.sites(c):
+                        if g in s_.callees and isinstance(s_.node, ast.Call):
+                            arg = None
+                            pos = g.posparams[1:] if g.is_method else g.posparams
+                            if v in pos and pos.index(v) < len(s_.node.args):
+                                arg = s_.node.args[pos.index(v)]
+                            for kw in s_.node.keywords:
+                                if kw.arg == v:
+                                    arg = kw.value
+                            if not isinstance(arg, ast.Name):
+                                return None
+                            work.append((c, arg.id))
+            for s_ in self.ctx.cg.sites(g):
+                if not isinstance(s_.node, ast.Call):
+                    continue
+                for h in s_.callees:
+                    pos = h.posparams[1:] if h.is_method else h.posparams
+                    for i, a in enumerate(s_.node.args):
+                        if isinstance(a, ast.Name) and a.id == v and i < len(pos):
+                            work.append((h, pos[i]))
+                    for kw in s_.node.keywords:
+                        if isinstance(kw.value, ast.Name) and kw.value.id == v and kw.arg in h.params:
+                            work.append((h, kw.arg))
+        arities = set()
+        n_store = 0
+        for q, v in seen:
+            g = db.funcs[q]
+            for nd in own_nodes(g.node):
+                val = None
+                if isinstance(nd, ast.Assign):
+                    for t in nd.targets:
+                        if isinstance(t, ast.Subscript) and isinstance(t.value, ast.Name) and t.value.id == v and not isinstance(t.slice, ast.Slice):
+                            val = nd.value
+                        elif isinstance(t, ast.Name) and t.id == v:
+                            # (re)binding of the container itself: empty or a display of displays
+                            b = nd.value
+                            if isinstance(b, ast.Call) and u(b.func) in ("dict", "list", "deque", "collections.deque") and not b.args and not b.keywords:
+                                continue
+                            if isinstance(b, (ast.Dict, ast.List)) and not (b.values if isinstance(b, ast.Dict) else b.elts):
+                                continue
+                            return None
+                elif isinstance(nd, ast.Call) and isinstance(nd.func, ast.Attribute) and isinstance(nd.func.value, ast.Name) and nd.func.value.id == v:
+                    if nd.func.attr in ("append", "appendleft", "add") and len(nd.args) == 1:
+                        val = nd.args[0]
+                    elif nd.func.attr == "setdefault" and len(nd.args) == 2:
+                        val = nd.args[1]
+                    elif nd.func.attr in ("update", "extend", "insert"):
+                        return None
+                elif isinstance(nd, ast.AugAssign) and isinstance(nd.target, ast.Name) and nd.target.id == v:
+                    return None
+                if val is not None:
+                    n_store += 1
+                    if isinstance(val, (ast.Tuple, ast.List)) and not any(isinstance(e, ast.Starred) for e in val.elts):
+                        arities.add(len(val.elts))
+                    else:
+                        return None
+        if n_store and len(arities) == 1:
+            return arities.pop()
         return None
 
     def dominating_def(self, info, name, stmt):
@@ -419,6 +511,13 @@ class Discharger:
         f = info.f
         # else-branch of an isinstance chain over a parameter whose inferred types are covered
         chain = self._if_chain_of(info, n)
+        if not chain:
+            chain = self._early_return_chain(info, n)
+        elif chain[1]:
+            # tests that left the block before the chain started (``if T: break`` ... ``if A: .. elif B: .. else: raise``)
+            pre = self._early_return_chain(info, self._chain_head_stmt(info, n))
+            if pre:
+                chain = (pre[0] + chain[0], True)
         if chain:
             tests, in_else = chain
             if in_else:
@@ -460,6 +559,51 @@ class Discharger:
                         if allm and allm <= members:
                             return "dead branch: if/elif chain covers every member of %s" % enumcls.name
         return None
+
+    def _chain_head_stmt(self, info, node):
+        """the If statement that heads the if/elif chain enclosing node"""
+        cur = node
+        head = None
+        while True:
+            p = info.pm.get(id(cur))
+            if p is None or isinstance(p, (ast.FunctionDef, ast.For, ast.While, ast.Try)):
+                return head if head is not None else node
+            if isinstance(p, ast.If):
+                head = p
+            cur = p
+
+    def _early_return_chain(self, info, node):
+        """a raise that follows a run of ``if T: <always exits>`` statements in the same block is the else-branch of that
+        chain (early-return spelling of if / elif / else)"""
+        stmt = node if isinstance(node, ast.stmt) else None
+        cur = node
+        while stmt is None:
+            cur = info.pm.get(id(cur))
+            if cur is None:
+                return None
+            if isinstance(cur, ast.stmt):
+                stmt = cur
+        parent = info.pm.get(id(stmt))
+        block = None
+        for fld in ("body", "orelse", "finalbody"):
+            b = getattr(parent, fld, None) if parent is not None else None
+            if isinstance(b, list) and any(x is stmt for x in b):
+                block = b
+        if block is None and any(x is stmt for x in info.f.node.body):
+            block = info.f.node.body
+        if block is None:
+            return None
+        i = [k for k, x in enumerate(block) if x is stmt][0]
+        tests = []
+        k = i - 1
+        def leaves(body):
+            return always_exits(body) or (body and isinstance(body[-1], (ast.Break, ast.Continue)))
+        while k >= 0 and isinstance(block[k], ast.If) and not block[k].orelse and leaves(block[k].body):
+            tests.append(block[k].test)
+            k -= 1
+        if not tests:
+            return None
+        return list(reversed(tests)), True
 
     def _if_chain_of(self, info, node):
         """(tests of the enclosing if/elif chain, node is in the final else)"""
